@@ -1,5 +1,23 @@
-(* C11 — placeholder until the engine theorems are added below. *)
-From WF Require Import model.Base model.EngineBase model.Engine.
-Theorem C11_emit_dead_silent : forall t s, o_dead s = true -> emit t s = (Ok tt, s).
-Proof. intros t s H. unfold emit. now rewrite H. Qed.
-Print Assumptions C11_emit_dead_silent.
+(* C11 — processes act only under their role; the in-memory role scheduler never lets two holders overlap.
+   Property theorems only. Data-race freedom is a statement about Go's memory model and is not modelled (partial). *)
+From WF Require Import model.Base model.EngineBase model.Engine model.MemRoles proofs.EngineTokens proofs.HandlerFacts proofs.MemRolesProofs.
+
+(* a store, stream or timeout-store call made after the lease was lost (or after the instance crashed) takes no effect, for
+   every call kind, token, effect and continuation: losing the role stops the work *)
+Theorem C11_no_effect_without_lease : forall {A} k T E (X : disp -> world -> M A) s,
+  o_dead s = true \/ o_lease s = false ->
+  exists s1, prim k true T E X s = X DoCancel (o_w s) s1 /\ o_w s1 = o_w s.
+Proof. intros A. exact (@call_without_lease_has_no_effect A). Qed.
+Print Assumptions C11_no_effect_without_lease.
+
+(* a process whose operation failed takes the error exit and stays alive (no terminal state exists in the process machine) *)
+Theorem C11_survives_errors : forall c inst u close (m : M pstate) s x s1,
+  m s = (Err x, s1) -> guarded c inst u close m s = exit_err c inst u close x s1.
+Proof. exact guarded_on_error. Qed.
+Print Assumptions C11_survives_errors.
+
+(* memrolescheduler: for EVERY interleaving of Await calls, mutex grants, context cancellations and unlocks, at most one
+   caller holds a role with a live context *)
+Theorem C11_role_mutex : forall ops, (holders (fold_left role_step ops roleq0) <= 1)%nat.
+Proof. exact role_mutex. Qed.
+Print Assumptions C11_role_mutex.
